@@ -18,7 +18,7 @@ import (
 
 func init() {
 	props := []string{"C05", "C11", "C12", "C19", "C07", "C14"}
-	for _, v := range []string{"backup", "damage", "wfault", "crashimg"} {
+	for _, v := range []string{"backup", "backup_race", "damage", "wfault", "crashimg"} {
 		v := v
 		register(&Scenario{Name: v, Props: props, Gen: func(seed uint64, tier string) *Plan { return genDisk(v, seed, tier) }, Run: runDisk})
 	}
@@ -50,6 +50,23 @@ func genDisk(variant string, seed uint64, tier string) *Plan {
 	k["restored_phases"] = r.Range(0, 2)
 	k["visitor_refresh"] = []int{-1, 0, 1, 3}[r.Intn(4)]
 	switch variant {
+	case "backup_race":
+		// the visitor of a delta backup is stalled on an item while writers delete it and
+		// snapshot churn lets the collector unlink and free it (user-managed memory,
+		// iterator refresh every item or two): the window in which only the iterator's
+		// own barrier session keeps its current item alive
+		k["mm"] = 1
+		k["delta"] = 1
+		k["visitor_refresh"] = r.Range(1, 2)
+		nkeys = r.Range(2, 6)
+		nw = r.Range(1, 3)
+		nph = r.Range(1, 2)
+		during = r.Range(2, 4)
+		k["shards"] = r.Range(1, 3)
+		k["store_conc"] = r.Range(1, 2)
+		k["store_snap"] = 0
+		k["restored_phases"] = 0
+		k["race"] = 1
 	case "damage":
 		// small backups so that the complete single-fault space is affordable
 		nkeys = r.Range(0, 6)
@@ -98,7 +115,11 @@ func genDisk(variant string, seed uint64, tier string) *Plan {
 				return Op{K: "nop"}
 			}
 		}
-		switch x := r.Intn(10); {
+		x := r.Intn(10)
+		if variant == "backup_race" && ph >= nph {
+			x = 3 + r.Intn(7) // mostly deletes while the backup runs
+		}
+		switch {
 		case x < 6:
 			return Op{K: "put", A: []int{key}}
 		case x < 9:
@@ -135,11 +156,24 @@ func genDisk(variant string, seed uint64, tier string) *Plan {
 	}
 	// closers running during the backup
 	tp := TaskPlan{Name: "c0", Phase: -1}
-	for j := 0; j < r.Range(0, 3); j++ {
+	ncl := r.Range(0, 3)
+	if variant == "backup_race" {
+		ncl = r.Range(3, 8)
+	}
+	for j := 0; j < ncl; j++ {
 		tp.Ops = append(tp.Ops, Op{K: "close", A: []int{r.Intn(8)}})
 	}
 	p.Tasks = append(p.Tasks, tp)
 	p.Sched = GenSched(r, seed, 150*p.NumOps()+500, diskStallSites)
+	if variant == "backup_race" {
+		p.Sched.Strategy = "random"
+		p.Sched.P = []float64{0.02, 0.1, 0.3}[r.Intn(3)]
+		p.Sched.Bias = []string{"eager", "eager", "fair"}[r.Intn(3)]
+		p.Sched.Disabled = nil
+		p.Sched.StallSite = []int{nitro.SiteVisitorItem, SiteHarnessCallback, nitro.SiteIterRefresh}[r.Intn(3)]
+		p.Sched.StallNth = r.Range(1, 5)
+		p.Sched.StallLen = r.Range(200, 4000)
+	}
 	if variant == "damage" {
 		// the schedule dimension of a load is small; keep the enumeration cheap
 		p.Sched.Strategy = "random"
@@ -286,7 +320,7 @@ func runDisk(env *Env) {
 		return
 	}
 	switch variant {
-	case "backup":
+	case "backup", "backup_race":
 		dr.checkBackup()
 	case "damage":
 		dr.checkDamage()
@@ -298,7 +332,7 @@ func runDisk(env *Env) {
 	if len(env.Res.Violations) == 0 {
 		// a failed LoadFromDisk does not release what it had built: the allocator-wide
 		// leak oracle (C07) is only meaningful in the fault-free backup variant
-		ne.allocShared = variant != "backup"
+		ne.allocShared = variant != "backup" && variant != "backup_race"
 		ne.finalStages()
 	}
 }
